@@ -500,7 +500,7 @@ impl Evaluator {
 /// standard environment of the arithmetic checks
 pub fn std_env() -> Env {
     let mut e = Env::default();
-    for (k, v) in [("x", "5"), ("y", "-3"), ("z", "0"), ("e", ""), ("n", "x"), ("m", "n"), ("w", "x+1"), ("big", "9223372036854775807"), ("i", "1")] {
+    for (k, v) in [("x", "5"), ("y", "-3"), ("z", "0"), ("e", ""), ("n", "x"), ("m", "n"), ("w", "x+1"), ("big", "9223372036854775807"), ("i", "1"), ("o", "010"), ("h", "0x1f"), ("bb", "2#101"), ("no", "-017")] {
         e.scalars.insert(k.to_string(), v.to_string());
     }
     let mut a = BTreeMap::new();
@@ -512,7 +512,7 @@ pub fn std_env() -> Env {
 }
 
 /// shell text that sets up std_env (u stays unset)
-pub const STD_ENV_SH: &str = "x=5; y=-3; z=0; e=; n=x; m=n; w=x+1; big=9223372036854775807; i=1; a=(3 5 7); unset u\n";
+pub const STD_ENV_SH: &str = "x=5; y=-3; z=0; e=; n=x; m=n; w=x+1; big=9223372036854775807; i=1; o=010; h=0x1f; bb=2#101; no=-017; a=(3 5 7); unset u\n";
 pub const TRACKED_SCALARS: &[&str] = &["x", "y", "z", "e", "n", "m", "w", "big", "i", "u"];
 
 fn lit(text: &str) -> A {
@@ -552,7 +552,7 @@ fn lvalue() -> BoxedStrategy<Lv> {
 
 fn rvalue_var() -> BoxedStrategy<A> {
     prop_oneof![
-        6 => proptest::sample::select(vec!["x", "y", "z", "e", "u", "n", "m", "w", "big", "i"]).prop_map(|n| A::Get(Lv::Var(n.to_string()))),
+        6 => proptest::sample::select(vec!["x", "y", "z", "e", "u", "n", "m", "w", "big", "i", "o", "h", "bb", "no"]).prop_map(|n| A::Get(Lv::Var(n.to_string()))),
         2 => small_index().prop_map(|i| A::Get(Lv::Elem("a".into(), Box::new(i)))),
     ]
     .boxed()
